@@ -98,7 +98,7 @@ def to_bool(v):
         if z3.is_real(v):
             return v != 0
         raise VCError('truthiness of %s' % v.sort())
-    if isinstance(v, (list, tuple, dict, str)):
+    if isinstance(v, (list, tuple, dict, str, set, frozenset)):
         return len(v) != 0
     if v is None:
         return False
